@@ -4,7 +4,7 @@
 import numpy as np
 
 from mc import schemas as S
-from mc.common2d import Reg, display_map, subtotal, with_subtotals
+from mc.common2d import SCALES, Reg, display_map, scale_invariant, scaled_parts, subtotal, with_subtotals
 from mc.compare import arr_bytes, first_diff
 from mc.engine import Res, digest, viol
 from mc.model import Schema
@@ -102,7 +102,10 @@ def check(space, state):
     outs = []
     nontrivial = False
     ndim3 = len(sch.dims) == 3
+    scaled = {e: scaled_parts(sch, data, cfg, e) for e in SCALES} if (sch.weighted and data) else {}
     for pidx, (part, (kind, _lbl, orc)) in enumerate(zip(cube.partitions, oracles)):
+        for e, sp in scaled.items():
+            asserted += scale_invariant(V, ["column_index"], part, sp[pidx], e)
         if sch.numeric:
             orc.data = [r for r in orc.data if r[2] is not None]
         o = with_subtotals(orc, cfg)
